@@ -59,3 +59,9 @@ PROPS['C05'] = dict(level='model_checking',
      ['then', 'upon_error', 'upon_done', 'let_value', 'let_error', 'let_done', 'sequence', 'finally', 'materialize', 'just']] +
    [SEQ('throw_' + n, 'C05_throw.cpp', 'h_' + n, exc=True, desc=n + ': throwing callable at symbolic position') for n in
      ['then_throw', 'let_value_throw', 'just_from_throw']])
+
+PROPS['C12'] = dict(level='model_checking',
+  bounds='sequential; every listed adaptor wraps a probe leaf at every child position (depth<=2 + one depth-3 nesting); query answers are symbolic 8-bit tags',
+  outside='adaptors not in the catalogue (listed per harness); type-erased wrappers (see C18)',
+  harnesses=[SEQ('q_' + n, 'C12_queries.cpp', 'h_q_' + n, desc='queries through ' + n) for n in
+     ['then', 'upon', 'let_value', 'let_error', 'sequence', 'finally', 'materialize', 'when_all', 'stop_when', 'unstoppable', 'with_query_value', 'nested']])
